@@ -45,7 +45,7 @@ def scanner_bounds(g, n, maxnul, refills=0):
 
 
 def e1_jobs(ctx, spec, cfg, lengths, maxnul=1, nodefault=False, checks='functional',
-            timeout=600, mem_mb=8000, witness_rule=None, tagx='', extra_options=(), g=None, wd=None):
+            timeout=600, mem_mb=8000, witness_rule=None, tagx='', extra_options=(), g=None, wd=None, source='buffer'):
     """One job per input length.  Returns (jobs, generated)."""
     if g is None:
         wd, g = _prep(ctx, spec, cfg, 'e1' + tagx, extra_options=ALLOC_OPTS + list(extra_options))
@@ -54,10 +54,10 @@ def e1_jobs(ctx, spec, cfg, lengths, maxnul=1, nodefault=False, checks='function
         return jobs, g
     for n in lengths:
         k = min(maxnul, n)
-        src = os.path.join(wd, 'e1_n%d_k%d%s.c' % (n, k, '_w' if witness_rule else ''))
+        src = os.path.join(wd, 'e1%s_n%d_k%d%s.c' % (tagx, n, k, '_w' if witness_rule else ''))
         with open(src, 'w') as fh:
-            fh.write(H.e1_harness(g, cfg, spec, n, k, nodefault=nodefault, witness=witness_rule))
-        j = cbmc.Job('e1_%s_%s_n%d_k%d%s' % (spec.name, cfg.name, n, k, '_w' if witness_rule else ''),
+            fh.write(H.e1_harness(g, cfg, spec, n, k, nodefault=nodefault, witness=witness_rule, source=source))
+        j = cbmc.Job('e1%s_%s_%s_n%d_k%d%s' % (tagx, spec.name, cfg.name, n, k, '_w' if witness_rule else ''),
                      wd, [src], scanner_bounds(g, n, k), includes=[wd, H.HDIR],
                      checks=checks, harness_bound=None, timeout=timeout, mem_mb=mem_mb,
                      gen_file=g.cpath, expect='witness' if witness_rule else 'proved',
@@ -135,4 +135,61 @@ def e3_jobs(ctx, spec, cfg, ms, bss, tokens=2, witness_first=True, timeout=900, 
                 jobs.append(j)
     ctx.functions.update(['yylex', 'yy_get_next_buffer', 'yy_get_previous_state', 'yy_try_NUL_trans',
                           'yy_create_buffer', 'yy_init_buffer', 'yy_flush_buffer', 'yyrestart'])
+    return jobs, g
+
+
+def gnb_jobs(ctx, spec, cfg, cap=3, m=2, timeout=600, mem_mb=8000, tagx=''):
+    """yy_get_next_buffer() unit obligation (+ witness twin)."""
+    wd, g = _prep(ctx, spec, cfg, 'gnb' + tagx, extra_options=ALLOC_OPTS + ['never-interactive'])
+    jobs = []
+    if not g.ok:
+        return jobs, g
+    for name in ('yy_get_next_buffer', 'yy_buffer_stack', 'yy_c_buf_p', 'yy_n_chars'):
+        if not H.has_name(g, name):
+            ctx.record('gnb_%s_%s' % (spec.name, cfg.name), 'skipped', reason='internal name %s absent' % name)
+            return jobs, g
+    for w in (False, True):
+        src = os.path.join(wd, 'gnb_c%d_m%d%s.c' % (cap, m, '_w' if w else ''))
+        with open(src, 'w') as fh:
+            fh.write(H.gnb_harness(g, cfg, spec, cap, m, witness=w))
+        b = scanner_bounds(g, cap, 0)
+        b.update({'move': cap + 2, 'grow': 4})
+        j = cbmc.Job('gnb_%s_%s_c%d_m%d%s' % (spec.name, cfg.name, cap, m, '_w' if w else ''), wd, [src], b,
+                     includes=[wd, H.HDIR], harness_bound=None, timeout=timeout, mem_mb=mem_mb, gen_file=g.cpath,
+                     expect='witness' if w else 'proved',
+                     meta=dict(engine='G1', entry=spec.name, config=cfg.name,
+                               bound='capacity<=%d, any fill/partial token/status, <=%d source bytes, any read size' % (cap, m),
+                               flex_input=g.ltext, flex_args=g.args))
+        jobs.append(j)
+    ctx.functions.update(['yy_get_next_buffer', 'yyrestart', 'yy_init_buffer', 'yy_flush_buffer'])
+    return jobs, g
+
+
+def e3w_jobs(ctx, spec, cfg, bs, m, maxnul=1, witness=True, timeout=900, mem_mb=12000, tagx='',
+             extra_options=(), interactive_check=False):
+    """Inductive refill step jobs (white box)."""
+    wd, g = _prep(ctx, spec, cfg, 'e3w' + tagx, extra_options=ALLOC_OPTS + list(extra_options))
+    jobs = []
+    if not g.ok:
+        return jobs, g
+    for name in ('yy_get_next_buffer', 'yy_buffer_stack', 'yy_c_buf_p', 'yy_n_chars', 'yy_hold_char'):
+        if not H.has_name(g, name):
+            ctx.record('e3w_%s_%s' % (spec.name, cfg.name), 'skipped', reason='internal name %s absent' % name)
+            return jobs, g
+    n = bs + m
+    for w in ([False, True] if witness else [False]):
+        src = os.path.join(wd, 'e3w_b%d_m%d%s.c' % (bs, m, '_w' if w else ''))
+        with open(src, 'w') as fh:
+            fh.write(H.e3w_harness(g, cfg, spec, bs, m, maxnul=maxnul, witness=w, interactive_check=interactive_check))
+        b = scanner_bounds(g, n, maxnul, refills=m)
+        b.update({'move': n + 2, 'grow': 4, 'goto_match': maxnul + m + 1, 'match': n + 3, 'prevstate': n + 2})
+        j = cbmc.Job('e3w_%s_%s_b%d_m%d%s' % (spec.name, cfg.name, bs, m, '_w' if w else ''), wd, [src], b,
+                     includes=[wd, H.HDIR], harness_bound=None, timeout=timeout, mem_mb=mem_mb, gen_file=g.cpath,
+                     expect='witness' if w else 'proved',
+                     meta=dict(engine='E3', entry=spec.name, config=cfg.name,
+                               bound='buffer capacity %d with any fill/position/status, %d further source bytes, any read sizes, one yylex step' % (bs, m),
+                               flex_input=g.ltext, flex_args=g.args))
+        jobs.append(j)
+    ctx.functions.update(['yylex', 'yy_get_next_buffer', 'yy_get_previous_state', 'yy_try_NUL_trans', 'yyrestart',
+                          'yy_init_buffer', 'yy_flush_buffer'])
     return jobs, g
